@@ -416,6 +416,30 @@ fn generate(full: bool) -> String {
                     e.self_conflict = true;
                     g.case("self-conflicting", &sx, &e, 2, "");
                 }
+                // the same through the derive macro's generated fetch: the member that fails comes last, the
+                // guards of the members in front of it have to be released by the unwinding
+                for form in 0..2 {
+                    let mut e = Exp::default();
+                    let mut body = String::new();
+                    for (i, leaf) in [T::Leaf(k1, 0), T::Leaf(K::Read, 1), T::Leaf(k2, 0)].iter().enumerate() {
+                        let mut sx = String::new();
+                        ty(leaf, &mut sx, &mut e);
+                        if form == 0 {
+                            write!(body, "    pub f{}: {},\n", i, sx).unwrap();
+                        } else {
+                            write!(body, "{}, ", sx).unwrap();
+                        }
+                    }
+                    e.self_conflict = true;
+                    let name = format!("S{}", sid);
+                    sid += 1;
+                    let prelude = if form == 0 {
+                        format!("#[derive(SystemData)]\n#[allow(dead_code)]\npub struct {}<'a> {{\n{}    pub lt: PhantomData<&'a ()>,\n}}\n", name, body)
+                    } else {
+                        format!("#[derive(SystemData)]\n#[allow(dead_code)]\npub struct {}<'a>({}PhantomData<&'a ()>);\n", name, body)
+                    };
+                    g.case("self-conflicting-derived", &format!("{}<'a>", name), &e, 2, &prelude);
+                }
             }
         }
     }
